@@ -67,12 +67,12 @@ class TimegridRoot(Contract):
             # every step that fits before the end is there:  start + T*delta <= end < start + (T+1)*delta
             yield ('C19.grid.count', S.and_(S.le(s0 + T * d, e0), S.lt(e0, s0 + (T + 1) * d)))
             yield ('C19.dt', S.forall(T, lambda k: S.eq(dt.f(k), S.div(d, un))))
-            yield ('C19.Dt', S.forall(T, lambda k: S.eq(Dt.f(k), S.psum(lambda j: S.div(d, un), 0, k + 1, pc))))
         else:
             # step length = elapsed time to the next point (the last step runs to the point date_range dropped)
             yield ('C19.dt', S.forall(T, lambda k: S.implies(S.lt(k + 1, T), lambda: S.eq(dt.f(k), S.div(tpt(k + 1) - tpt(k), un)))))
             yield ('C19.dt.positive', S.forall(T, lambda k: S.gt(dt.f(k), 0)))
-            yield ('C19.Dt', S.forall(T, lambda k: S.eq(Dt.f(k), S.psum(lambda j: dt.f(j), 0, k + 1, pc))))
+        # cumulative time = prefix sums of the step lengths (both kinds)
+        yield ('C19.Dt', S.forall(T, lambda k: S.eq(Dt.f(k), S.psum(lambda j: dt.f(j), 0, k + 1, pc))))
 
     # run-time twin
     def schema(self, case):
@@ -161,6 +161,6 @@ class TimegridSetWacc(Contract):
             return
         un, day = freq_ns(I, g.get('main_time_unit')), freq_ns(I, 'd')
         # (1+wacc)^(-elapsed years), elapsed years = Dt * unit / (365 days)
-        yield ('C02.discount', z3.And(lift(dff.n) == T, S.forall(T, lambda k: sym.cmpop('Eq', dff.f(k), sym.rpow(
-            1 + w, -(Dt.f(k) * sym.to_real(un) / sym.to_real(day)) / 365)))))
+        years = lambda k: (Dt.f(k) * sym.to_real(un) / sym.to_real(day)) / 365
+        yield ('C02.discount', z3.And(lift(dff.n) == T, S.forall(T, lambda k: sym.cmpop('Eq', dff.f(k), sym.rpow(1 + w, -years(k))))))
         yield ('C02.discount.positive', S.forall(T, lambda k: S.gt(dff.f(k), 0)))
